@@ -628,3 +628,35 @@ def attribute_target_records(repo):
                     if n.path not in ps.top_state.get('attr_targets', ()):
                         rec['missing'].append(s.variant)
     return recs
+
+
+# ---------------------------------------------------------------------------
+# regions that lead nowhere
+# ---------------------------------------------------------------------------
+
+def dead_end_records(repo):
+    """Every region a visit method creates in the current scope (make_flow, not the exit region of a child) must be the final region
+    of the construct or one of its ancestors (parents and back edges followed upwards): a region nothing inherits from is a dead
+    end - whatever is bound there is lost to the code after the construct.
+    -> ({(cls, hint): {'variants': [...], 'line': ...}}, number of created regions examined)"""
+    bad = {}
+    n = 0
+    for cls, summs in summaries(repo).items():
+        for s in summs:
+            for sp in structural_paths(s):
+                up = {tok: list(r['parents']) + list(r['loops']) for tok, r in sp.regions.items()}
+                anc, work = set(), [sp.final_flow]
+                while work:
+                    t = work.pop()
+                    if t in anc:
+                        continue
+                    anc.add(t)
+                    work.extend(up.get(t, []))
+                for tok, r in sp.regions.items():
+                    if r['scope'] != 'CURSCOPE' or r.get('exit_of') or tok == 'CUR':
+                        continue
+                    n += 1
+                    if tok not in anc:
+                        rec = bad.setdefault((cls, str(r['hint'])), {'variants': [], 'line': method_line(repo, cls)})
+                        rec['variants'].append(s.variant)
+    return bad, n
